@@ -55,27 +55,28 @@ theorem child_in_interval (c : Chart) (hc : Coh c) (hi : IntervalOK c = true) (t
     exact Or.inr hpd
   exact (intervalOK_spec hi hdlt hs hdp).mp hsd
 
-/-- **exiting keeps the configuration parent-closed**: what is left after removing the exit set of the selected transitions still
-has every state's parent -/
-theorem exit_keeps_parents (c : Chart) (hc : Coherent c = true) (hi : IntervalOK c = true)
-    (config : List Nat) (ev : Option String) (pf : List Nat) (xs : XS)
+/-- exiting keeps the configuration parent-closed, for any set `X` that holds exactly the active states inside the exit
+intervals of a set of plain transitions -/
+theorem exit_keeps_parents_gen (c : Chart) (hc : Coherent c = true) (hi : IntervalOK c = true)
+    (config X transSet : List Nat)
     (hcfg : ConfigOk c config) (hclosed : ParentClosed c config)
-    (hplain : ∀ i ∈ (Large.selectLoop c config ev pf { x := xs }).transSet, Properties.C05.plainTrans c (T.tr c i) = true) :
-    ParentClosed c (config.filter (fun s => !(Large.selectLoop c config ev pf { x := xs }).exitSet.contains s)) := by
+    (hinv : ∀ s, s ∈ X ↔ ∃ t ∈ transSet, s ∈ config ∧ (exitSet c (Large.tr c t)).1 ≠ 0 ∧
+      (exitSet c (Large.tr c t)).1 ≤ s ∧ s ≤ (exitSet c (Large.tr c t)).2)
+    (hplain : ∀ i ∈ transSet, Properties.C05.plainTrans c (T.tr c i) = true) :
+    ParentClosed c (config.filter (fun s => !X.contains s)) := by
   have hcoh := coh_of_coherent hc
-  have hinv := large_selectLoop_exit c config ev pf { x := xs } (by intro s; simp)
   intro s hs p hp
   simp only [List.mem_filter, Bool.not_eq_eq_eq_not, Bool.not_true] at hs ⊢
   obtain ⟨hsc, hsx⟩ := hs
   refine ⟨hclosed s hsc p hp, ?_⟩
-  cases hcp : (Large.selectLoop c config ev pf { x := xs }).exitSet.contains p with
+  cases hcp : X.contains p with
   | false => rfl
   | true =>
   exfalso
-  have hpx : p ∈ (Large.selectLoop c config ev pf { x := xs }).exitSet := by simpa using hcp
-  have hsx' : s ∉ (Large.selectLoop c config ev pf { x := xs }).exitSet := by
+  have hpx : p ∈ X := by simpa using hcp
+  have hsx' : s ∉ X := by
     intro h
-    have : (Large.selectLoop c config ev pf { x := xs }).exitSet.contains s = true := by simpa using h
+    have : X.contains s = true := by simpa using h
     rw [this] at hsx; cases hsx
   apply hsx'
   -- the parent is in the exit interval of some selected transition; so is the child
@@ -95,5 +96,15 @@ theorem exit_keeps_parents (c : Chart) (hc : Coherent c = true) (hi : IntervalOK
     | some d => exact ⟨d, rfl, domain_proper c hcoh _ hpl d hd⟩
   have := child_in_interval c hcoh hi (Large.tr c t) s p (hcfg s hsc).1 hp hdom ⟨h0, h1, h2⟩
   exact (hinv s).mpr ⟨t, ht, hsc, h0, this.1, this.2⟩
+
+/-- **exiting keeps the configuration parent-closed**: what is left after removing the exit set of the selected transitions still
+has every state's parent -/
+theorem exit_keeps_parents (c : Chart) (hc : Coherent c = true) (hi : IntervalOK c = true)
+    (config : List Nat) (ev : Option String) (pf : List Nat) (xs : XS)
+    (hcfg : ConfigOk c config) (hclosed : ParentClosed c config)
+    (hplain : ∀ i ∈ (Large.selectLoop c config ev pf { x := xs }).transSet, Properties.C05.plainTrans c (T.tr c i) = true) :
+    ParentClosed c (config.filter (fun s => !(Large.selectLoop c config ev pf { x := xs }).exitSet.contains s)) :=
+  exit_keeps_parents_gen c hc hi config _ _ hcfg hclosed
+    (large_selectLoop_exit c config ev pf { x := xs } (by intro s; simp)) hplain
 
 end UscxmlVerif.Proofs.ExitClosed
